@@ -215,6 +215,11 @@ def part_store(ctx, cfg):
     def user(cur, new):
         calls.append((cur, new))
         return cur - new
+    empties = []
+
+    def user_empty(cur, new):
+        empties.append(new)
+        return cur + 1
     pre = ('n1', 'n2')[:cfg['depth']]
     leaves = {
         'acc': {'_default': v}, 'set': {'_default': v, '_updater': 'set'},
@@ -224,7 +229,11 @@ def part_store(ctx, cfg):
         'untouched': {'_default': v}, 'ovr': {'_default': v},
         'ovr_null': {'_default': v},
         'multi': {'_default': v},
-        'multiset': {'_default': v, '_updater': 'set'}}
+        'multiset': {'_default': v, '_updater': 'set'},
+        # dictionary-valued leaves: the empty dict is a value like any other
+        'setd': {'_default': {'b': v}, '_updater': 'set'},
+        'usrd': {'_default': v, '_updater': user_empty},
+        'multid': {'_default': {'b': v}, '_updater': 'set'}}
     st = Store(nest(leaves, pre))
     st.apply_defaults()
     node = st.get_path(pre)
@@ -233,7 +242,9 @@ def part_store(ctx, cfg):
            'ovr': {'_updater': 'set', '_value': u},
            'ovr_null': {'_updater': 'null', '_value': u},
            'multi': {'_multi_update': [u, u2]},
-           'multiset': {'_multi_update': [u, u2]}}
+           'multiset': {'_multi_update': [u, u2]},
+           'setd': {}, 'usrd': {},
+           'multid': {'_multi_update': [{'k': u}, {}]}}
     full = nest(upd, pre)
     full0 = copy.deepcopy(full)
     st.apply_update(full)
@@ -243,6 +254,8 @@ def part_store(ctx, cfg):
           len(calls) == 1, EQ(g['untouched'], v), EQ(g['ovr'], u),
           EQ(g['ovr_null'], v), EQ(g['multi'], v + u + u2),
           EQ(g['multiset'], u2),
+          g['setd'] == {}, EQ(g['usrd'], v + 1), empties == [{}],
+          g['multid'] == {},
           {k: id(n) for k, n in node.inner.items()} == ids,
           _same_tree(_strip(full), _strip(full0))]
     for k in ('acc', 'nn', 'usr', 'multi', 'multiset'):
